@@ -160,7 +160,13 @@ CHECKS = {
               'receipt without id is passed through untouched; for a segmented message a segment receipt yields the '
               'placeholder while any sibling has no receipt yet and, at the last one, exactly one receipt carrying the '
               'message\'s identity - the last failing one if any reported an error (receipt codes aggregate by maximum, every '
-              'error code ranks below SENT). The order-independence over ALL arrival orders of receipts and remaining '
+              'error code ranks below SENT). HISTORY LEVEL, unsegmented messages (Lemmas/RcptHistory.lean, invariants by induction '
+              'over arbitrary operation lists): receipt_attributed_after_any_history - after any history in which the message was '
+              'stored, accepted under an id while outstanding, and the id was since neither handed out again nor consumed nor '
+              'outlived (delivery time-to-live), a receipt naming the id carries the message\'s log_id/extra_data, whatever other '
+              'requests, responses, receipts and inbound messages were handled in between; unknown_receipt_after_any_history - '
+              'after any history in which nothing was accepted under an id, a receipt naming it gets empty log_id/extra_data. '
+              'For SEGMENTED messages the order-independence over ALL arrival orders of receipts and remaining '
               'responses is covered by the correspondence + attribution predicate on generated histories (receipts before '
               'sibling responses, TLV id, duplicates, unknown ids) and by finite kernel-checked tests, not yet by an '
               'unbounded theorem. Session level (no theorem): real sessions with a scripted SMSC that accepts messages and sends receipts '
